@@ -1,10 +1,12 @@
 """Sidecar contracts (DESIGN.md Appendix A). One module per repository module."""
 def install_all(reg):
-    from pyvc import sdmodel
+    from pyvc import sdmodel, pnmodel
     sdmodel.install(reg)
+    pnmodel.install(reg)
     from . import space_utils, deps, succession_diagram
     space_utils.install(reg)
     deps.install(reg)
     succession_diagram.install(reg)
-    from . import algorithms
+    from . import algorithms, petri_net
     algorithms.install(reg)
+    petri_net.install(reg)
